@@ -44,6 +44,10 @@ CORPUS = [
     ("def\ttabbed(): pass\n", ['tabbed']),
     ("class\tTabbed: pass\n", ['Tabbed']),
     ("def \\\n    continued(): pass\n", ['continued']),
+    # ... and the continuation line may start with the name (column 0)
+    ("def \\\nflush(): pass\n", ['flush']),
+    ("class \\\nLeft(object): pass\n", ['Left']),
+    ("def recur(): pass\nasync def \\\nrecur(): return recur()\n", ['recur']),
     # names that are a prefix of a keyword standing in front of them
     ("async def d(): pass\n", ['d']),
     ("async def de(): pass\n", ['de']),
